@@ -19,10 +19,12 @@ from . import function_extensions
 from .exceptions import JSONPathNameError
 from .exceptions import JSONPathTypeError
 from .filter_expressions import ComparisonExpression
+from .filter_expressions import FilterExpression
 from .filter_expressions import FilterExpressionLiteral
 from .filter_expressions import FilterQuery
 from .filter_expressions import FunctionExtension
 from .filter_expressions import LogicalExpression
+from .filter_expressions import PrefixExpression
 from .function_extensions import ExpressionType
 from .function_extensions import FilterFunction
 from .lex import tokenize
@@ -218,7 +220,14 @@ class JSONPathEnvironment:
             elif typ == ExpressionType.LOGICAL:
                 if not (
                     isinstance(
-                        arg, (FilterQuery, LogicalExpression, ComparisonExpression)
+                        arg,
+                        (
+                            FilterQuery,
+                            LogicalExpression,
+                            ComparisonExpression,
+                            PrefixExpression,
+                            FilterExpression,
+                        ),
                     )
                     or self._function_return_type(arg)
                     in (ExpressionType.LOGICAL, ExpressionType.NODES)
